@@ -211,15 +211,15 @@ func c20Sec() *security.SecurityConfig {
 }
 
 type c20Broker struct {
-	addr   string
-	ln     net.Listener
-	cancel context.CancelFunc
-	script []string // events: reply-ok, reply-fail, legit, rogue-wrong, rogue-garbage, rogue-old, rogue-close
-	mu     sync.Mutex
-	opened []net.Conn
+	addr        string
+	ln          net.Listener
+	cancel      context.CancelFunc
+	script      []string // events: reply-ok, reply-fail, legit, rogue-wrong, rogue-garbage, rogue-old, rogue-close
+	mu          sync.Mutex
+	opened      []net.Conn
 	rogueClosed map[int]bool
-	legit  net.Conn
-	reqs   int
+	legit       net.Conn
+	reqs        int
 }
 
 func startC20Broker(script []string) (*c20Broker, error) {
@@ -447,7 +447,7 @@ func c20MultiBroker(res *vlib.Result, working []bool, stagger time.Duration) {
 func C20Plan() *vlib.Plan {
 	p := &vlib.Plan{
 		Property: "C20", Level: "exploration",
-		Rule: "E-ENUM of arrival orders. (1) accept loop (in-package seam) over a scripted listener: all sequences of length <= L over 11 connection kinds {legit id, wrong id, empty id, id of an earlier request, 39-char prefix of the id, non-hello command, garbage, truncated hello, oversized ad, immediate close, hello without id}; the returned conn must be the first one that presented the id, every earlier one closed, none returned otherwise. (2) proxied request over a scripted broker stream: 11 reply shapes; a conn only after success + matching hello. (3) Dial in standard mode against in-process brokers on loopback TCP: every ordering of {reply-ok, reply-fail} x {legit, 4 rogue kinds} up to 3 events (a rogue's turn ends when it observes its own close), each run twice; 1-3 brokers with every working subset x stagger {-1, 20 ms}: the returned conn delivers the token written on the legit reverse connection. (4) 10^4 generated connect ids are 40 hex characters and pairwise distinct. Non-trivial = at least one connection/reply consumed by the dialer.",
+		Rule:   "E-ENUM of arrival orders. (1) accept loop (in-package seam) over a scripted listener: all sequences of length <= L over 11 connection kinds {legit id, wrong id, empty id, id of an earlier request, 39-char prefix of the id, non-hello command, garbage, truncated hello, oversized ad, immediate close, hello without id}; the returned conn must be the first one that presented the id, every earlier one closed, none returned otherwise. (2) proxied request over a scripted broker stream: 11 reply shapes; a conn only after success + matching hello. (3) Dial in standard mode against in-process brokers on loopback TCP: every ordering of {reply-ok, reply-fail} x {legit, 4 rogue kinds} up to 3 events (a rogue's turn ends when it observes its own close), each run twice; 1-3 brokers with every working subset x stagger {-1, 20 ms}: the returned conn delivers the token written on the legit reverse connection. (4) 10^4 generated connect ids are 40 hex characters and pairwise distinct. Non-trivial = at least one connection/reply consumed by the dialer.",
 		Assume: []string{"(3) uses real loopback TCP and goroutines: where a failure reply and the matching hello are both available either documented outcome is accepted", "the 'nothing decisive arrives' scripts rely on the dial's own 300 ms timeout"},
 	}
 	p.Gen = func(tier string, yield func(vlib.Case)) {
